@@ -30,12 +30,18 @@ RULE = ("workflows of 1-5 children in topological numbering: function leaves (0-
         "pickle-boundary executor / executor given as instructions; every completion order by the oracle list "
         "(small shapes exhaustively in the thorough tier); plus run-cycle histories (set / set_input_values / run / "
         "run(check_readiness=False) / execute / complete / clear, incl. fail-on-executor -> repair -> out again past the gate) on one "
-        "leaf or macro with neighbours; plus For nodes and real thread / process / cloudpickle-process pools. "
+        "leaf or macro with neighbours; plus re-trigger histories (ORACLE ONLY, the model keeps no record of received "
+        "trigger signals): a node waiting for TWO upstream siblings through accumulate_and_run goes out, comes back and is "
+        "triggered again by hand-pushed runs of the siblings, compared round by round (outputs of every node, function "
+        "calls) with the all-local replay of the same history; plus For nodes and real thread / process / "
+        "cloudpickle-process pools. "
         "Non-trivial: at least one node crosses a pickle boundary or is probed while out. Distinct = distinct case.")
 TRUSTED = ["harness PickleBoundaryExecutor (cloudpickle.dumps at submit, loads + run + dumps/loads of the result at the "
            "scheduled completion) as the serialisation contract of a process pool",
            "reflection of the real object graph into the model's initial heap (harness/props/c10.py reflect)",
            "C01 (Dag.v) for the scheduling part of 'every completion order'"]
+TRUSTED.append("re-trigger family (ops `up`): judged by the oracle against an all-local replay in the same process; "
+               "AccumulatingInputSignal.received_signals is not part of the model's channel state")
 ASSUMPTIONS = ["node functions deterministic and integer valued; DAG-wired composites; fresh graphs (first run is not a cache hit)",
                "For nodes are driven on the implementation and judged by the oracle only (their body construction is C16's model)"]
 
@@ -582,6 +588,7 @@ def shown_reference(case, target_kind_node):
     node = target_kind_node
     cls = type(node)
     kw = {ch.label: ch.value for ch in node.inputs}
+    n_calls = len(nodes.CALLS)          # the reference run must leave no trace in the call log
     try:
         fresh = cls(label="ref", **kw)
         fresh.use_cache = False
@@ -590,10 +597,42 @@ def shown_reference(case, target_kind_node):
         return [[ch.label, val(ch.value)] for ch in fresh.outputs]
     except Exception as e:      # noqa
         return ["raises", type(e).__name__]
+    finally:
+        del nodes.CALLS[n_calls:]
+
+
+def replay_local(case):
+    """the same history on the same graph with NO executor anywhere (re-trigger family): the state after every
+    `complete` mark, and what the hand-pushed upstream runs answered"""
+    nodes.reset()
+    C().reset_registry()
+    t = case["target"]
+    wf, _ = build(case, with_executors=False)
+    kids = [wf.children[f"n{i}"] for i in range(len(case["kids"]))]
+    for i, k in enumerate(kids):
+        if i < t:
+            k.run(emit_ran_signal=False)
+    wf.set_run_signals_to_dag_execution()
+    kids[t].use_cache = False
+    kids[t].recovery = None
+    nodes.CALLS.clear()
+    trace, log = [], []
+    for op in case["ops"]:
+        if op[0] == "up":
+            try:
+                kids[op[1]].run(a=op[2])
+                log.append("ok")
+            except Exception as e:      # noqa
+                log.append(type(e).__name__)
+        elif op[0] == "complete":
+            trace.append([values_by_path(wf), sorted(tg for tg, a in nodes.CALLS)])
+    return trace, log
 
 
 def run_cycle(case):
     c = C()
+    retrig = any(op[0] == "up" for op in case["ops"])
+    ref_trace, ref_log = replay_local(case) if retrig else ([], [])
     nodes.reset()
     c.reset_registry()
     t = case["target"]
@@ -630,6 +669,7 @@ def run_cycle(case):
     delivered = []      # per completion: [succeeded, outputs shown, what a local run gives for the inputs shown]
     xpath = "/" + root.label if root is X else f"/wf/n{t}" + ("/" + case["rel"] if case.get("rel") else "")
     nodes.CALLS.clear()
+    trace = []          # re-trigger family: state after every completion, to be compared with the all-local replay
     sent = None         # the inputs the node showed when it was submitted
     extra = []          # [signature, text] found by the driver itself (needs live objects)
 
@@ -689,12 +729,22 @@ def run_cycle(case):
         elif op[0] == "clear":
             X.failed = False
             log.append("ok")
+        elif op[0] == "up":         # a hand-pushed run of an upstream sibling with fresh data: its `ran` reaches X's trigger
+            try:
+                kids[op[1]].run(a=op[2])
+                log.append("ok")
+            except Exception as e:      # noqa
+                log.append(type(e).__name__)
+        if op[0] == "complete" and retrig:
+            trace.append([values_by_path(root), sorted(tg for tg, a in nodes.CALLS)])
         recs.append([out_before, bool(X.running), bool(X.failed), len(c.pending())])
     lost = check_snapshot(root, snap) if not X.running else []
     # third component: every completion happened in a state that meets the hypotheses of the merge theorem
     # (computed by the model from the reflected heap; the implementation side is the constant "yes")
     return {"model": [render(root, exmap), log, [1 for d in delivered]], "delivered": delivered, "lost": lost, "pending": len(c.pending()),
-            "xpath": xpath, "running": bool(X.running), "failed": bool(X.failed), "recs": recs, "extra": extra}
+            "xpath": xpath, "running": bool(X.running), "failed": bool(X.failed), "recs": recs, "extra": extra,
+            "trace": trace, "ref_trace": ref_trace, "ups": [r for op, r in zip(case["ops"], log) if op[0] == "up"],
+            "ref_ups": ref_log}
 
 
 # =========================================================================== model
@@ -743,6 +793,8 @@ def model_term(case):
 
 
 def modelled(case):
+    if case["kind"] == "cycle" and any(op[0] == "up" for op in case["ops"]):
+        return False        # the model keeps no record of received trigger signals: this family is judged by the oracle alone
     return not any(k["t"] == "for" for k in case["kids"])      # the construction of a For body is not modelled
 
 
@@ -882,6 +934,20 @@ def violations(case, obs):
             x_merges = x["t"] != "leaf" and x.get("ex") in BOUNDARY
         for sig, text in obs.get("extra", []):
             out.append((sig, text, obs["xpath"]))
+        if obs.get("ups") != obs.get("ref_ups"):
+            out.append(("raised", f"hand-pushed upstream runs answered {obs.get('ups')}, all-local {obs.get('ref_ups')}",
+                        obs["xpath"]))
+        for n, (got, want) in enumerate(zip(obs.get("trace", []), obs.get("ref_trace", []))):
+            if got[0] != want[0]:
+                a, b = dict((p, v) for p, v in want[0]), dict((p, v) for p, v in got[0])
+                bad = sorted(p for p in set(a) | set(b) if a.get(p) != b.get(p))
+                out.append(("wrong-output", f"after trigger round {n + 1} the outputs differ from the all-local replay at "
+                                            f"{bad[:4]}: {[b.get(p) for p in bad[:2]]} vs {[a.get(p) for p in bad[:2]]}", bad[0]))
+                break
+            if got[1] != want[1]:
+                out.append(("not-once", f"after trigger round {n + 1} the functions were called {got[1]}, "
+                                        f"all-local replay {want[1]} (fired early / twice / not at all)", obs["xpath"]))
+                break
         merged, stuck, k = False, False, 0
         run_before, failed_before = False, False
         for op, r, rec in zip(case["ops"], log, obs["recs"]):
@@ -1129,6 +1195,28 @@ def gen_failfirst(rng):
     return {"kind": "cycle", "kids": kids, "target": 0, "parentless": False, "ops": ops}
 
 
+def gen_fanin(rng):
+    """re-use after the merge: X waits for TWO upstream siblings (accumulate_and_run), goes out, comes back, and is
+    triggered again by hand-pushed runs of the two siblings (in any order, possibly one of them twice)"""
+    r = rng.random()
+    if r < 0.75:
+        cls = rng.choice(["MB", "MC", "ME"])
+        x = {"t": "macro", "cls": cls, "ins": [["n", [0]], ["n", [1]]], "ex": None, "inner": {}}
+    else:
+        x = {"t": "leaf", "k": rng.randint(0, 9), "ins": [["n", [0]], ["n", [1]]], "ex": None}
+    x["ex"] = rng.choice(["pb", "pb", "pb", "ipb", "man", None])
+    kids = [{"t": "leaf", "k": rng.randint(0, 9), "ins": [["c", rng.randint(0, 20)]], "ex": None},
+            {"t": "leaf", "k": rng.randint(0, 9), "ins": [["c", rng.randint(0, 20)]], "ex": None}, x]
+    if rng.random() < 0.6:
+        kids.append({"t": "leaf", "k": rng.randint(0, 9), "ins": [["n", [2]]], "ex": None})
+    ops = []
+    for _ in range(rng.randint(2, 3)):
+        first = rng.choice([0, 1])
+        seq = [first] * rng.choice([1, 1, 2]) + [1 - first]
+        ops += [["up", i, rng.randint(0, 40)] for i in seq] + [["complete"]]
+    return {"kind": "cycle", "kids": kids, "target": 2, "parentless": False, "ops": ops}
+
+
 def enumerate_small():
     """sender s -> X -> receiver t with X a leaf / macro / nested macro, the three nodes, one inner node and the
     root independently local / manual / pickle boundary, every completion order of the (at most three) jobs"""
@@ -1193,6 +1281,8 @@ def generate(ctx):
         out.append(gen_nested(rng))
     for _ in range(ctx.n(80, 800)):
         out.append(gen_failfirst(rng))
+    for _ in range(ctx.n(60, 600)):
+        out.append(gen_fanin(rng))
     if not ctx.quick:
         out.extend(enumerate_small())
     return out
